@@ -11,7 +11,7 @@ Definition param (j : nat) : str := [108%N; N.of_nat (48 + j)]. (* "l<j>" *)
 
 Definition shapes : list shape := [ShG; ShS; ShSN; ShSNN; ShGN; ShGNN].
 Definition nunits (sh : shape) : nat :=
-  match sh with ShG | ShS | ShGI => 1 | ShSN | ShGN => 2 | ShSNN | ShGNN => 3 end.
+  match sh with ShG | ShS | ShGI | ShTI => 1 | ShSN | ShGN => 2 | ShSNN | ShGNN => 3 end.
 
 (* every list of shapes whose objects number at most `budget` (fuel >= budget suffices: a shape has >= 1 object) *)
 Fixpoint shape_lists (fuel budget : nat) : list (list shape) :=
@@ -165,3 +165,51 @@ Lemma small_space_cont_ok :
   forall shs ls, In shs layouts_upto2 -> In ls (link_seqs3 (components (decls_from 0 shs))) ->
   (case_ok_cont nofix (decls_from 0 shs, ls) && case_ok_cont allfix (decls_from 0 shs, ls)) = true.
 Proof. apply (layouts_ok3_forall (fun c => case_ok_cont nofix c && case_ok_cont allfix c)). vm_cast_no_check (eq_refl true). Qed.
+
+(* ---- WHOLE class-typed arguments as link targets --------------------------------------------------------------------
+   One argument `--n type=Optional[Base]` (ShTI) at every declaration position of every layout with at most two constructed
+   objects; link targets: the parameters of every constructed object and the argument n itself (link(src, "n")).  Every
+   sequence of one or two links of which at least one targets n as a whole (a second link into the same whole argument is
+   refused by link_arguments for another reason, "No action for key", and is not part of the space). *)
+Definition whole_sinks (ds : list decl) : list str :=
+  flat_map (fun d => match d_shape d with ShTI => [d_name d] | _ => [] end) ds.
+
+Definition link_choices_w (srcs tgts wholes : list str) (j : nat) : list link :=
+  link_choices_t srcs tgts j
+  ++ flat_map (fun s =>
+       flat_map (fun attr : bool =>
+         flat_map (fun n =>
+           map (fun fn : bool => {| l_id := j; l_srcs := [if attr then s ++ dot :: s_at else s];
+                                    l_target := n; l_fn := fn |}) [false; true]) wholes) [false; true]) srcs.
+
+Definition link_seqs_whole (ds : list decl) : list (list link) :=
+  let srcs := map c_dest (components ds) in
+  let tgts := tgt_prefixes (components ds) in
+  let ws := whole_sinks ds in
+  filter (existsb whole_target)
+    (map (fun l => [l]) (link_choices_w srcs tgts ws 0)
+     ++ flat_map (fun l0 => map (fun l1 => [l0; l1])
+                              (filter (fun l1 => negb (whole_target l0 && str_eqb (l_target l0) (l_target l1)))
+                                      (link_choices_w srcs tgts ws 1)))
+                 (link_choices_w srcs tgts ws 0)).
+
+Definition layouts_whole : list (list shape) := flat_map (insertions ShTI) (shape_lists 2 2).
+
+Definition layout_ok_whole (ok : list decl * list link -> bool) (shs : list shape) : bool :=
+  let ds := decls_from 0 shs in forallb (fun ls => ok (ds, ls)) (link_seqs_whole ds).
+
+Lemma layouts_ok_whole_forall ok lays :
+  forallb (layout_ok_whole ok) lays = true ->
+  forall shs ls, In shs lays -> In ls (link_seqs_whole (decls_from 0 shs)) -> ok (decls_from 0 shs, ls) = true.
+Proof.
+  intros H shs ls Hs Hl. rewrite forallb_forall in H. specialize (H shs Hs).
+  unfold layout_ok_whole in H. rewrite forallb_forall in H. exact (H ls Hl).
+Qed.
+
+Lemma small_space_whole_ok :
+  forall shs ls, In shs layouts_whole -> In ls (link_seqs_whole (decls_from 0 shs)) ->
+  (case_ok nofix (decls_from 0 shs, ls) && case_ok_fixed (decls_from 0 shs, ls)) = true.
+Proof. apply (layouts_ok_whole_forall (fun c => case_ok nofix c && case_ok_fixed c)). vm_cast_no_check (eq_refl true). Qed.
+
+Definition whole_space_size : nat :=
+  fold_right plus 0 (map (fun shs => length (link_seqs_whole (decls_from 0 shs))) layouts_whole).
